@@ -344,14 +344,16 @@ func (t Transport) tryFindReg(data *bytes.Buffer, originalDst net.IP, regManager
 
 		if reg.TransportType() != pb.TransportType_Prefix {
 			return nil, ErrIncorrectTransport
-		} else if params, ok := reg.TransportParams().(*pb.PrefixTransportParams); ok {
-			if params == nil || params.GetPrefixId() != int32(id) {
-				// If the registration we found has no params specified (invalid and shouldn't have
-				// been ingested) or if the prefix ID does not match the expected prefix, set the
-				// err to return if we can't match any other prefixes.
-				eWrongPrefix = fmt.Errorf("%w: e %d != %d", ErrIncorrectPrefix, params.GetPrefixId(), id)
-				continue
-			}
+		}
+
+		params, ok := reg.TransportParams().(*pb.PrefixTransportParams)
+		if !ok || params == nil || params.GetPrefixId() != int32(id) {
+			// If the registration we found has no prefix params specified (invalid and shouldn't
+			// have been ingested - this includes params that were absent entirely, i.e. a nil
+			// interface) or if the prefix ID does not match the expected prefix, set the err to
+			// return if we can't match any other prefixes.
+			eWrongPrefix = fmt.Errorf("%w: e %d != %d", ErrIncorrectPrefix, params.GetPrefixId(), id)
+			continue
 		}
 
 		// We don't want to forward the prefix or Tag bytes, but if any message
